@@ -30,6 +30,7 @@ class Runtime:
         self.program = program
         self.nodes = dict(IR.all_nodes(program))
         self.reset()
+        self.shared_funcs = {}
         self.controller = None  # set by harness/drive.py for controlled schedules
         self.mutate_defaults = False
 
@@ -60,11 +61,11 @@ class Runtime:
         vals = []
         for o in outs:
             if nd["fn"] == "id":
-                vals.append(args[0][1] if args else f"{nd['name']}.{o}")
+                vals.append(args[0][1] if args else f"{nd['tname']}.{o}")
             elif nd["fn"] == "const":
-                vals.append(f"{nd['name']}.{o}")
+                vals.append(f"{nd['tname']}.{o}")
             else:
-                vals.append(f"{nd['name']}.{o}(" + ",".join(f"{p}={IR.canon(v)}" for p, v in args) + ")")
+                vals.append(f"{nd['tname']}.{o}(" + ",".join(f"{p}={IR.canon(v)}" for p, v in args) + ")")
         if not outs:
             return None
         return vals[0] if len(outs) == 1 else tuple(vals)
@@ -90,6 +91,9 @@ class Runtime:
         self._maybe_fail(path, idx, args)
         nd = self.nodes[path]
         raw = nd["script"][min(idx, len(nd["script"])) - 1]
+        if nd["pure"]:
+            text = ",".join(f"{p}={IR.canon(v)}" for p, v in args)
+            raw = nd["script"][len(text) % len(nd["script"])]
         vals = {IR.canon(v) for _, v in args}
         for val, r2 in nd["dec_args"]:
             if val in vals:
@@ -140,7 +144,8 @@ def _mk_callable(rt, path, nd, entry):
     """exec a distinct function per node; parameters are the ORIGINAL names."""
     orig = [dict(map(tuple, nd["pmap"]))[p] for p in nd["inputs"]]
     dflt = set(dict(map(tuple, nd["pmap"]))[p] for p in nd["defaults"])
-    params = ", ".join(f"{p}='dflt.{p}'" if p in dflt else p for p in orig)
+    sig = [p for p in orig if p not in dflt] + [p for p in orig if p in dflt]
+    params = ", ".join(f"{p}='dflt.{p}'" if p in dflt else p for p in sig)
     argt = "(" + "".join(f"({p!r}, {p}), " for p in orig) + ")"
     fname = nd.get("fname", nd["name"])
     is_async = nd["is_async"] and entry == "call"
@@ -148,13 +153,23 @@ def _mk_callable(rt, path, nd, entry):
         src = f"async def {fname}({params}):\n    return await RT.acall({path!r}, {argt})\n"
     else:
         src = f"def {fname}({params}):\n    return RT.{entry}({path!r}, {argt})\n"
+    shared = nd["fid"] != nd["name"] and not nd["fid"].startswith("path:")
+    if shared and nd["fid"] in rt.shared_funcs:
+        return rt.shared_funcs[nd["fid"]]       # several nodes wrap the very same function object
+    if shared:
+        src = src.replace(repr(path), repr("fid:" + nd["fid"]))
+        rt.nodes.setdefault("fid:" + nd["fid"], nd)
     ns = {"RT": rt}
     exec(src, ns)  # noqa: S102 - harness-generated source
+    if shared:
+        rt.shared_funcs[nd["fid"]] = ns[fname]
     return ns[fname]
 
 
 def _rename_inputs(node, nd):
     ren = {o: c for c, o in nd["pmap"] if o != c}
+    if ren and nd.get("materialize"):
+        _ = (node.inputs, getattr(node, "defaults", None), node.definition_hash)   # ordinary reads before the rename
     return node.with_inputs(ren) if ren else node
 
 
